@@ -358,7 +358,13 @@ def concretise(d, rng, i=0):
         return lambda: _bin_feature(feat, d["n_obs"], d["n_bins"], bm)
     if e == "pd":
         X, j, _ = make_X(rng, d["n_obs"])
-        grid = pl.Series([0.5, 1.5, 2.5][: rng.randrange(1, 4)])
+        ng = rng.randrange(1, 4)
+        # numpy.average accepts 2-d weights whose shape happens to equal (n_grid, n); model/Validate.v (pd_core) describes
+        # the case shape != (n_grid, n) only (the weights of this helper are not among the clauses of C20), so the
+        # grid length avoids that coincidence
+        if w is not None and np.ndim(w) == 2 and np.shape(w) == (ng, d["n_obs"]):
+            ng = ng % 3 + 1
+        grid = pl.Series([0.5, 1.5, 2.5][:ng])
         return lambda: compute_partial_dependence(lambda Z: np.asarray(Z)[:, 0] * 0.25 + 0.5, np.asarray(X), 0, grid, w)
     if e == "plot_rel":
         f, dt = fname(rng, d), rng.choice(["reliability", "bias"])
